@@ -1,9 +1,11 @@
 // C12 E-SHIM harness helpers: bump arena allocator (addresses are never re-used inside a run, so an address names
-// one node for the whole run), scenario parsing, schedule modes.
+// one node for the whole run; deallocation marks the record dead), fault injection into user functors (comparator,
+// hasher, key_equal, element constructor, allocator), scenario parsing, schedule modes.
 #pragma once
 #include <cstdint>
 #include <cstdio>
 #include <cstring>
+#include <functional>
 #include <map>
 #include <set>
 #include <sstream>
@@ -13,18 +15,76 @@
 
 namespace c12 {
 
-struct AllocRec { size_t off, bytes; int tag; };     // tag: 1 = list node, 2 = other (segments, tables)
+// --- fault injection: the k-th call of a user functor inside one container operation throws -----------------
+enum { F_CMP = 0, F_HASH, F_EQ, F_CTOR, F_ALLOC, F_N };
+static const char* const F_NAMES[F_N] = {"cmp", "hash", "eq", "ctor", "alloc"};
+inline int functor_id(const std::string& w) { for (int i = 0; i < F_N; ++i) if (w == F_NAMES[i]) return i; return -1; }
+struct Injected { int what; long k; };                  // the injected exception
+struct CallCount { long n[F_N] = {0, 0, 0, 0, 0}; };
+struct FaultCtl {
+    int tid = -1, op = -1, what = -1; long k = 0;       // armed fault: thread, operation index, functor, k-th call within the operation (tid < 0: none)
+    bool fired = false;
+    std::vector<std::vector<CallCount>> calls;         // [tid][op]: functor calls the operation made (recorded when it ends)
+    void arm(int t, int o, int w, long kk) { tid = t; op = o; what = w; k = kk; }
+    void disarm() { tid = -1; op = -1; what = -1; k = 0; }
+};
+inline FaultCtl& fctl() { static FaultCtl f; return f; }
+inline thread_local int t_tid = -1;                    // scenario thread of the calling thread (-1: harness code)
+inline thread_local int t_op = -1;
+inline thread_local bool t_active = false;             // inside a container call of a scenario operation
+inline thread_local long t_calls[F_N] = {0, 0, 0, 0, 0};
+inline void functor_call(int what) {
+    if (!t_active) return;
+    long n = ++t_calls[what];
+    FaultCtl& f = fctl();
+    if (f.tid == t_tid && f.op == t_op && f.what == what && f.k == n) {
+        f.fired = true; t_active = false;
+        verif::note("x", (uint64_t)what, (uint64_t)n);
+        throw Injected{what, n};
+    }
+}
+struct OpScope {           // brackets the container call(s) of one scenario operation
+    OpScope(int tid, int op) { t_tid = tid; t_op = op; for (long& c : t_calls) c = 0; t_active = true; }
+    ~OpScope() {
+        t_active = false;
+        FaultCtl& f = fctl();
+        if (t_tid >= 0 && (size_t)t_tid < f.calls.size() && t_op >= 0 && (size_t)t_op < f.calls[t_tid].size())
+            for (int i = 0; i < F_N; ++i) f.calls[t_tid][t_op].n[i] = t_calls[i];
+        t_tid = -1; t_op = -1;
+    }
+};
+
+// element type whose copy / move construction is a user functor call (the value nodes hold one; 8 bytes like the plain key)
+struct Elem {
+    uint64_t v;
+    explicit Elem(uint64_t x = 0) noexcept : v(x) {}
+    Elem(const Elem& o) : v(o.v) { functor_call(F_CTOR); }
+    Elem(Elem&& o) : v(o.v) { functor_call(F_CTOR); }
+    Elem& operator=(const Elem&) = default;
+};
+
+// --- bump arena: addresses are never re-used inside a run; deallocation only marks the record dead ------------
+struct AllocRec { size_t off, bytes; int tag; int dead = 0; int tid = -1, op = -1; };     // tag: 1 = list node, 2 = other (segments, tables)
 struct Arena {
     static constexpr size_t SIZE = size_t(256) << 20;
     char* base = nullptr; size_t top = 0; std::vector<AllocRec> recs;
+    std::vector<std::string> errors;                   // double / unknown deallocations
+    std::function<void(size_t)> on_dealloc;            // harness hook, called BEFORE the record is marked dead
     Arena() { base = static_cast<char*>(aligned_alloc(4096, SIZE)); }
-    void reset() { top = 0; recs.clear(); }
+    void reset() { top = 0; recs.clear(); errors.clear(); on_dealloc = nullptr; }
     void* alloc(size_t bytes, size_t align, int tag) {
         top = (top + align - 1) / align * align;
         if (top + bytes > SIZE) { fprintf(stderr, "arena exhausted\n"); abort(); }
-        void* p = base + top; recs.push_back({top, bytes, tag}); top += bytes;
+        void* p = base + top; recs.push_back({top, bytes, tag, 0, t_tid, t_op}); top += bytes;
         memset(p, 0, bytes);
         return p;
+    }
+    void dealloc(const void* p) {
+        long i = find(p);
+        if (i < 0 || (size_t)((const char*)p - base) != recs[i].off) { errors.push_back("deallocation of an address that was never allocated"); return; }
+        if (recs[i].dead) { errors.push_back("allocation #" + std::to_string(i) + " deallocated twice"); recs[i].dead++; return; }
+        if (on_dealloc) on_dealloc((size_t)i);
+        recs[i].dead = 1;
     }
     bool contains(const void* p) const { return (const char*)p >= base && (const char*)p < base + top; }
     // index of the allocation record containing p (or -1)
@@ -37,6 +97,7 @@ struct Arena {
         const AllocRec& r = recs[lo - 1];
         return off < r.off + r.bytes ? (long)(lo - 1) : -1;
     }
+    bool is_dead(const void* p) const { long i = find(p); return i >= 0 && recs[i].dead; }
 };
 inline Arena& arena() { static Arena a; return a; }
 
@@ -49,8 +110,11 @@ struct BumpAlloc {
     using is_always_equal = std::true_type;
     BumpAlloc() = default;
     template <class U> BumpAlloc(const BumpAlloc<U>&) noexcept {}
-    T* allocate(size_t n) { return static_cast<T*>(arena().alloc(n * sizeof(T), alignof(T) < 8 ? 8 : alignof(T), node_tag<T>::value)); }
-    void deallocate(T*, size_t) noexcept {}
+    T* allocate(size_t n) {
+        functor_call(F_ALLOC);
+        return static_cast<T*>(arena().alloc(n * sizeof(T), alignof(T) < 8 ? 8 : alignof(T), node_tag<T>::value));
+    }
+    void deallocate(T* p, size_t) noexcept { arena().dealloc(p); }
     template <class U> bool operator==(const BumpAlloc<U>&) const noexcept { return true; }
     template <class U> bool operator!=(const BumpAlloc<U>&) const noexcept { return false; }
 };
@@ -65,6 +129,7 @@ struct Scenario {
     std::vector<OpSpec> pre;                  // executed sequentially before the threads start
     std::vector<std::vector<OpSpec>> progs;
     std::vector<int> sched;                   // `sched t t t ...` line: the schedule for `replay -`
+    int f_tid = -1, f_op = -1, f_what = -1; long f_k = 0;      // `fault <tid> <op index> <functor> <k>`
 };
 inline OpSpec parse_op(const std::string& w) {
     OpSpec o; size_t c = w.find(':');
@@ -87,6 +152,7 @@ inline Scenario read_scenario(FILE* f) {
         else if (w == "hash") { uint64_t k, h; while (is >> k >> h) s.hash[k] = h; }
         else if (w == "pre") { while (is >> w) s.pre.push_back(parse_op(w)); }
         else if (w == "sched") { int t; while (is >> t) s.sched.push_back(t); }
+        else if (w == "fault") { std::string f; is >> s.f_tid >> s.f_op >> f >> s.f_k; s.f_what = functor_id(f); }
         else if (w == "prog") { std::vector<OpSpec> p; while (is >> w) p.push_back(parse_op(w)); s.progs.push_back(p); }
     }
     return s;
